@@ -38,7 +38,9 @@ Failed(e) ==
     (IF "lines" \in want /\ ~LineCount(st, e.h) THEN <<"lines">> ELSE <<>>) \o
     (IF "attrs" \in want /\ ~AttrsOK(f, e.expect) THEN <<"attrs">> ELSE <<>>) \o
     (IF "glyphs" \in want /\ ~GlyphsOK(f, e.order) THEN <<"glyphs">> ELSE <<>>) \o
-    (IF "centred" \in want /\ ~Centred(e.h, e.cursor_top, e.cursor_rows) THEN <<"centred">> ELSE <<>>)
+    (IF "centred" \in want /\ ~Centred(e.h, e.cursor_top, e.cursor_rows) THEN <<"centred">> ELSE <<>>) \o
+    \* the status line, when the mode has one, is what the last line of the frame says (as much of it as the width shows)
+    (IF "status" \in want /\ e.lastline # e.status THEN <<"status">> ELSE <<>>)
 
 Init == l = 1 /\ bad = <<>>
 Step == /\ l <= Len(Log) /\ l' = l + 1
